@@ -19,6 +19,9 @@ theorem C05_update_covers_batch : ∀ a ∈ batchMutated, a = "blobs_dtype" ∨ 
 /-- every field that `run()` can change at all is restored by the resume path -/
 theorem C05_resume_covers_run : ∀ a ∈ runMutated, a ∈ resumedAttrs := by decide
 
+/-- every field that `run()` can change at all (end of exploration included) is stored by a full write -/
+theorem C05_write_covers_run : ∀ a ∈ runMutated, a = "blobs_dtype" ∨ C05.keyOf a ∈ writeKeys := by decide
+
 /-- every field that a bound insertion changes is stored by the full write that follows it -/
 theorem C05_write_covers_bound : ∀ a ∈ boundMutated, C05.keyOf a ∈ writeKeys := by decide
 
